@@ -28,7 +28,7 @@ TDefVerdict == /\ Ev.ev = "dverdict"
    well-formed one is judged by the layout rule applied to what the grammar says it means *)
 TGVerdict == /\ Ev.ev = "gverdict"
              /\ LET gv == GrammarVerdict(D(Ev).gram) IN
-                /\ (gv = "must_reject" => ~Ev.accepted /\ Ev.in_decl)
+                /\ (gv = "must_reject" /\ EnforceReject(D(Ev).gram) => ~Ev.accepted /\ Ev.in_decl)
                 /\ (gv = "must_accept" /\ Verdict(D(Ev)) = "accept" => Ev.accepted)
                 /\ (gv = "must_accept" /\ Verdict(D(Ev)) = "reject" => ~Ev.accepted)
                 (* in ANY item order: an attribute whose items are all well formed can only mean what they say, and a
